@@ -871,14 +871,15 @@ impl Desugar for (t::CoData, t::EntityId) {
             .map(|t::CoDataArm { name, params, out }| {
                 let mut out = out.desugar(desugarer)?;
                 if let Some(params) = params {
+                    let span = params.span(desugarer.spans).clone().make(params);
                     let b::Appli(params) = params.desugar(desugarer)?;
                     for param in params.into_iter().rev() {
                         match param {
                             | b::CoPatternItem::Pat(pat) => {
                                 out = Alloc::alloc(desugarer, b::Pi(pat, out).into(), prev)
                             }
-                            | b::CoPatternItem::Dtor(dtor) => {
-                                panic!("dtor in codata arm params: {:?}", dtor)
+                            | b::CoPatternItem::Dtor(_) => {
+                                return Err(DesugarError::QuantifierParameterNotPattern(span));
                             }
                         }
                     }
